@@ -312,6 +312,24 @@ func (g *genState) decorate(n *SNode) {
 			}
 		}
 	}
+	// an explicit or-rule naming built-in and user types in any order (the value matches the built-in alternative)
+	if refs := g.refTargets(); (n.Kind == "int" || n.Kind == "string") && n.Min == nil && n.Max == nil && n.EnumRef == "" && len(refs) > 0 && g.r.Chance(1, 8) {
+		builtin := map[string]string{"int": "integer", "string": "string"}[n.Kind]
+		a := refs[g.r.Intn(len(refs))].Name
+		switch g.r.Intn(4) {
+		case 0:
+			n.OrAlts = []string{builtin, a}
+		case 1:
+			n.OrAlts = []string{a, builtin}
+		case 2:
+			n.OrAlts = []string{builtin, a, refs[g.r.Intn(len(refs))].Name}
+		default:
+			n.OrAlts = []string{"boolean", builtin, a}
+		}
+		if len(n.OrAlts) == 3 && n.OrAlts[1] == n.OrAlts[2] {
+			n.OrAlts = n.OrAlts[:2]
+		}
+	}
 	if g.r.Chance(1, 4) {
 		n.Note = g.word() + []string{" ", " ", " ", "\u00a0"}[g.r.Intn(4)] + "note"
 	}
